@@ -39,7 +39,8 @@ Theorem c10_oracle_holds i b snap tr :
   model_run i = Some (b, snap, tr) ->
   b = true /\ boot_oracle i b snap = true /\ Spec.C10.oracle i tr = true.
 Proof.
-  intros Hs Hk H. pose proof Hs as Hs'. unfold c10_scope in Hs'. apply andb_true_iff in Hs' as [Hin _].
+  intros Hs Hk H. pose proof Hs as Hs'. unfold c10_scope in Hs'. apply andb_true_iff in Hs' as [Hs' _].
+  apply andb_true_iff in Hs' as [Hin _].
   destruct (scope_parts _ Hin) as [Ht [Hst [Hd _]]].
   destruct (bootstrap_synced i Ht Hst Hd) as [st0 [E R]].
   destruct (snapshot_sim (options (i_table i)) (i_defaults i) (in_opts_nodup i Ht) st0 (mon0 i) (options (i_table i)) R
@@ -78,7 +79,8 @@ Section Run11.
       { destruct (flagged (mon_step opts defaults m o)) eqn:Ef; [|reflexivity].
         rewrite (mon_run_flag_mono _ _ _ _ Ef) in Hfl. discriminate. }
       assert (step_ok opts defaults st m o st1 ob) as [Hchk R1].
-      { destruct o; try discriminate Hc1.
+      { destruct o; try discriminate Hc1; [| | | | | |
+          eapply (sim_step opts defaults (in_opts_nodup i Htab) (in_opts_not_hs i Htab) (in_opts_keys_ok i Htab) names eq_refl); eauto].
         - eapply (sim_step opts defaults (in_opts_nodup i Htab) (in_opts_not_hs i Htab) (in_opts_keys_ok i Htab) names eq_refl); eauto.
         - eapply (sim_step opts defaults (in_opts_nodup i Htab) (in_opts_not_hs i Htab) (in_opts_keys_ok i Htab) names eq_refl); eauto.
         - eapply (sim_step opts defaults (in_opts_nodup i Htab) (in_opts_not_hs i Htab) (in_opts_keys_ok i Htab) names eq_refl); eauto.
@@ -95,7 +97,7 @@ Theorem c11_oracle_holds i b snap tr :
   model_run i = Some (b, snap, tr) ->
   b = true /\ Spec.C11.oracle i b snap tr = true.
 Proof.
-  intros Hs Hk Hc H. unfold c11_scope in Hs.
+  intros Hs Hk Hc H. unfold c11_scope in Hs. apply andb_true_iff in Hs as [Hs Hcp]. apply negb_true_iff in Hcp.
   destruct (scope_parts _ Hs) as [Ht [Hst [Hd Hops]]].
   unfold c11_known in Hk.
   destruct (bootstrap_synced i Ht Hst Hd) as [st0 [E R]].
@@ -107,5 +109,5 @@ Proof.
   unfold Spec.C11.oracle, full_oracle. apply second_world. apply andb_true_iff. split; [exact Hok|].
   unfold cfg_oracle_from.
   apply (sim_run11 i Ht Hd (i_ops i) st0 (mon0 i) tr' R Hops Hc); [|exact Er].
-  rewrite c10_known_flagged in Hk. exact Hk.
+  change (flagged (mon_of i) = false). rewrite c10_known_flagged, Hk, Hcp. reflexivity.
 Qed.
